@@ -10,7 +10,7 @@ DRIVER = "C12"
 TIMEOUT = 1500
 
 RULE = ("savefiles of generated applications (C12's family: preset selectors with dependent defaults, toggles that "
-        "allocate a pointer sub-tree, enabled-by on embedded sub-trees, rDepends lists, up to 3 levels, enumerated "
+        "allocate a pointer sub-tree, enabled-by on embedded sub-trees (also by a port inside the sub-tree), rDepends lists, up to 3 levels, enumerated "
         "sub-trees) in states reached by 3..12 random parameter messages; the message lines are permuted: ALL "
         "permutations up to 6 lines (quick: always up to 4 lines, for every 4th file up to 6), random permutations "
         "beyond; plus sub-files from which depended-on lines (selectors, switches together with their sub-tree) are "
@@ -21,7 +21,7 @@ TRUSTED = ["harness/h_C12.cpp (perm stream): splitting the real savefile into me
            "the recording savefile_dispatcher_t subclass",
            "tools/props/save_common.py: the apropos table handed to the model (exact path -> metadata of the port it denotes)"]
 ASSUMPTIONS = ["addresses in a file are distinct (what save_to_file produces)",
-               "sibling names are prefix-free (Ports::apropos finds the port a path denotes; C18's sibling condition)",
+               "sibling names are prefix-free, except that a leaf's name may extend a sub-tree's name (fx_on beside fx/): Ports::apropos finds the port a path denotes (C18's sibling condition)",
                "a sub-file keeps, for every line below a pointer sub-tree, the line of the switch that allocates it"]
 
 def deps_of(ref, i):
@@ -35,7 +35,7 @@ def gen(rng, tier, dist):
     for c in range(n):
         static = c % 5 == 4
         opts = {"p_soft": 0.6 if rng.random() < 0.5 else 0.0, "p_sel": 0.8, "p_ptr": 0.7,
-                "p_rdep": 0.7, "p_nodef": 0.03, "p_inner": 0.0}
+                "p_rdep": 0.7, "p_nodef": 0.03, "p_inner": 0.5 if rng.random() < 0.3 else 0.0}
         app = sc.static_app() if static else sc.gen_app(rng, opts)
         ref = sc.Ref(app)
         if not ref.flat:
@@ -94,7 +94,18 @@ def gen(rng, tier, dist):
             groups.append(perms_of(keep, 8))
         gtxt = ";".join("/".join((".".join("%d" % j for j in pm) or "-") for pm in g) for g in groups)
         # edges the oracle checks: (dependee path, dependent path)
-        edges = sorted({(ref.flat[d].path, p) for p in paths for d in deps_of(ref, port_of[p])})
+        # (also the references of ports without a line that can be reached from a line: the order
+        #  has to hold through them - "including files where a depended-on port is itself absent")
+        eset, todo, seen_i = set(), [port_of[p] for p in paths], set()
+        while todo:
+            i = todo.pop()
+            if i in seen_i:
+                continue
+            seen_i.add(i)
+            for d in deps_of(ref, i):
+                eset.add((ref.flat[d].path, ref.flat[i].path))
+                todo.append(d)
+        edges = sorted(eset)
         etxt = ",".join("%s>%s" % e for e in edges) or "-"
         out.append("perm %s %s %s %s %s %s %d %s" % (tree, flat, ops, gtxt, apro, mops, k, etxt))
         dist["lines=%d" % min(k, 9)] = dist.get("lines=%d" % min(k, 9), 0) + 1
@@ -104,6 +115,10 @@ def gen(rng, tier, dist):
     return out
 
 def canon(case, line):
+    if line.startswith("UNDECLARED "):
+        # the model driver evaluated `declared a (apropos_of_tree root)` for this application and it does
+        # not hold (hypothesis of C13_perm_invariant / C12's sorted pipeline): shown as a disagreement
+        return line[:200]
     r = parse_out(line)
     if r is None:
         return line
@@ -142,6 +157,9 @@ def spec_check(case, impl):
     if n != want_n:
         return "lines: the savefile has %d message lines, the state calls for %d" % (n, want_n)
     edges = [] if f[8] == "-" else [tuple(e.split(">")) for e in f[8].split(",")]
+    refs = {}
+    for a, b in edges:
+        refs.setdefault(b, []).append(a)
     perms = [[([] if pm == "-" else [int(x) for x in pm.split(".")]) for pm in g.split("/")] for g in f[4].split(";")]
     for gi, g in enumerate(groups):
         if any(p is None for p in g):
@@ -158,9 +176,20 @@ def spec_check(case, impl):
             if sorted(order) != sorted(order0) or len(order) != want_len:
                 return "order: the loader handed out %d of %d messages (%s)" % (len(order), want_len, ">".join(order))
             pos = {p: j for j, p in enumerate(order)}
-            for a, b in edges:
-                if a in pos and b in pos and pos[a] > pos[b]:
-                    return "order: %s is applied after %s, which depends on it (file order %s)" % (a, b, perms[gi][pi])
+            for b in order:
+                # everything b refers to, directly or through ports that have no line in this file
+                todo, seen = list(refs.get(b, [])), set()
+                while todo:
+                    a = todo.pop()
+                    if a in seen or a == b:
+                        continue
+                    seen.add(a)
+                    if a in pos:
+                        if pos[a] > pos[b]:
+                            return "order: %s is applied after %s, which depends on it%s (file order %s)" % (
+                                a, b, "" if a in refs.get(b, []) else " through ports without a line", perms[gi][pi])
+                    else:
+                        todo += refs.get(a, [])
     return None
 
 def nontrivial(case, impl):
@@ -185,6 +214,7 @@ TECHNIQUE = ("Coq proof about a code-shaped model of scan_deps (string surgery o
 LEVEL_TEXT = ("The sort as coded is proved correct for ALL inputs: on acyclic (ranked) edges the fuel suffices, the hand-out order is a "
               "permutation of the messages and respects every edge (C13_kahn, C13_topo over the edges scan_deps produces); two "
               "dependency-respecting orders of the same lines give the same state and count when independent messages commute "
-              "(C13_linear_extensions_agree, C13_perm_invariant_partial). Open: same_edges, commutation for the abstract application, "
-              "C13_edges_complete (see notes/C13.md).")
+              "(C13_linear_extensions_agree); for C12's abstract application the commutation is proved, so permuting the lines of a file "
+              "changes neither the state nor the count (C13_perm_invariant: wf_app, metadata declares the dependencies - decidable, "
+              "C13_declared_computed, evaluated in the tie -, acyclic edges); C13_edges_complete, C13_same_edges full at model level.")
 LEVEL_NOTE = "apropos (C18) and the metadata lookup (C17) enter the model as a function argument; the application semantics are C12's abstract application"
